@@ -159,6 +159,7 @@ type World struct {
 	seq   int
 	healSeq int
 	hostile  bool
+	lastRead  map[uint64][]byte
 	burstNode uint64
 	burstLeft int
 	phaseEnd int
@@ -230,7 +231,7 @@ func (w *World) failed() bool { return w.nOwn > 0 }
 // NewWorld builds the initial cluster.
 func NewWorld(cfg WorldCfg, keepLog bool) *World {
 	w := &World{Cfg: cfg, nodes: map[uint64]*node{}, net: map[int]*netMsg{}, sentLog: map[int]msgMeta{},
-		cut: map[[2]uint64]bool{}, Stats: map[string]int{}, keepLog: keepLog, lg: newLogger(), nextMsg: 1}
+		cut: map[[2]uint64]bool{}, lastRead: map[uint64][]byte{}, Stats: map[string]int{}, keepLog: keepLog, lg: newLogger(), nextMsg: 1}
 	w.mon = newMonState()
 	members := append(append([]uint64{}, cfg.Voters...), cfg.Learners...)
 	sort.Slice(members, func(i, j int) bool { return members[i] < members[j] })
